@@ -397,6 +397,22 @@ Example C03_example_rename_same :
   /\ kperm DacTree.dtree 4 2 DacTree.carol = false.
 Proof. exact DacTree.rename_same_no_permission. Qed.
 
+(* Rename(/t, /t/g) by alice in a sticky / where /t is bob's: EINVAL on both sides, decided before the sticky bit, which
+   refuses Rename(/t, /g) with EPERM (rename(2): the ancestor test precedes may_delete) *)
+Example C03_example_rename_into_itself :
+  let o := abs_path [DacTree.n_t] in
+  let p := abs_path ([DacTree.n_t] ++ [DacTree.n_g]) in
+  let q := abs_path [DacTree.n_g] in
+  (fst (rename DacTree.ifs (DacTree.view_of DacTree.alice 18) o p),
+   proj_res Linux (snd (rename DacTree.ifs (DacTree.view_of DacTree.alice 18) o p)))
+  = go_rename DacTree.ifs (DacTree.svu DacTree.alice 18) o p
+  /\ snd (go_rename DacTree.ifs (DacTree.svu DacTree.alice 18) o p) = SErr EINVAL
+  /\ (fst (rename DacTree.ifs (DacTree.view_of DacTree.alice 18) o q),
+      proj_res Linux (snd (rename DacTree.ifs (DacTree.view_of DacTree.alice 18) o q)))
+     = go_rename DacTree.ifs (DacTree.svu DacTree.alice 18) o q
+  /\ snd (go_rename DacTree.ifs (DacTree.svu DacTree.alice 18) o q) = SErr EPERM.
+Proof. exact DacTree.rename_into_itself_first. Qed.
+
 (* Chown by ordinary users: alice gives her /e/q (group 2000) to her own group - allowed, both sides, the step theorem
    applies; giving it to bob is EPERM; bob's Chown(/h/f,-1,-1) is allowed (the former deviation C03-CHOWN-NONROOT) *)
 Example C03_example_chown_nonroot :
